@@ -19,6 +19,13 @@ open Kust Sync
 /-- the package-level variables written outside `init` on the build path are exactly the reviewed ones -/
 theorem globals_reviewed : Gen.mutableGlobals.map (·.1) = Reviewed.mutableGlobals := by decide
 
+/-- … and the only package-level variables handed BY REFERENCE to a call on the build path (their address, or the
+    shared object a package-level pointer / map / channel designates) are the reviewed ones: the schema lock, a
+    `sync.Once`, an immutable codec, a table that is copied before use.  A memo kept in a `sync.Map`, a cache object
+    behind a package-level pointer, … shows up here. -/
+theorem globals_byref_reviewed :
+    Gen.globalsByRef.map (fun e => (e.1, e.2.1)) = Reviewed.globalsByRef.map (fun e => (e.1, e.2.1)) := by decide
+
 /-- Go-plugin registry: outside the property's domain (builds with built-in transformers only) -/
 def exempt (g : String) : Bool := g = "api/internal/plugins/loader.registry"
 
